@@ -76,6 +76,27 @@ def C28_dummy_in_own_actual():
 
 
 @case
+def C28_name_capture():
+    """Caller variable named like another dummy: n -> k + 1 is rewritten again by k -> j, giving j = 2*(j + 1)."""
+    return marked(args='k, j', decls='integer, intent(in) :: k\n    integer, intent(out) :: j', actuals='k + 1, j',
+                  dummies='n, k', cdecls='integer, intent(in) :: n\n    integer, intent(out) :: k', cbody='k = 2*n')
+
+
+@case
+def C28_section_stride():
+    """Dummy a(-1:3) for actual ia(0:4): the stride of a(1:3:2) is lost (ia(2:4) instead of ia(2:4:2))."""
+    return marked(args='ia', decls='integer, intent(inout) :: ia(0:4)', actuals='ia',
+                  dummies='a', cdecls='integer, intent(inout) :: a(-1:3)', cbody='a(1:3:2) = 7')
+
+
+@case
+def C28_section_open_bound():
+    """Dummy a(-1:3) for actual ia(0:4): a(:1) becomes the invalid subscript ia(1 + (:1))."""
+    return marked(args='ia', decls='integer, intent(inout) :: ia(0:4)', actuals='ia',
+                  dummies='a', cdecls='integer, intent(inout) :: a(-1:3)', cbody='a(:1) = 7')
+
+
+@case
 def C28_print_in_callee():
     """PRINT / WRITE are opaque Intrinsic nodes: dummies and renamed locals inside them are not rewritten."""
     return marked(args='k', decls='integer, intent(inout) :: k\n    integer :: t', actuals='k',
